@@ -68,6 +68,11 @@ checks = {
    technique="exhaustive cross product of HTTP methods x node routes x Authorization header kinds x bodies through the real api handler (ServeHTTP) with a bus spy and snapshot comparison; explicit-state search over user-placement histories on the real store for login/listing; real nats-server + real nats.go clients for the bus token",
    text="Every request with an invalid header must answer 401, cause zero bus messages and leave the store unchanged; every valid header must not answer 401. In every reachable placement state (move, mirror, delete, re-add, deleted groups; depth 5/6) a token is issued iff the user reaches the root through non-deleted edges, the issued token validates, wrong/empty credentials fail, and the node listing stays inside the subtrees of live placements. Bus: connects iff the token is exact.",
    note="JWT variants (HS384/512, expired, missing claims) are crafted with the instance key read from the database file by the harness. /v1/auth excluded from the 401 oracle."),
+ "C15": dict(
+   category="model_checking", design_ref="DESIGN.md §3 C15",
+   technique="exhaustive enumeration of (special point content x tree shape x position x import target x preserveIDs) through the real client.ExportNodes / ImportNodes on real stores (two instances for cross-instance import), differential oracle: imported subtree vs exported subtree under one id bijection",
+   text="Every combination is built on a fresh store, exported to YAML and imported under the same parent, another parent and another instance, with and without id preservation; shape, node types, every point (type, normalised key, value bit-wise, text, tombstone), edge points, id replacement consistency incl. node-id references, the import marker on the top node only, and absence of deleted nodes are compared.",
+   note="Known findings (pinned YAML encoder): 13 exact strings and the class of floats printed as d e+-x. Quick: full content alphabet on one configuration + reduced alphabet on all configurations."),
 }
 pending_reason = "check not built yet in this round (planned in DESIGN.md §3); not claimed until its harness exists"
 m = {
